@@ -120,8 +120,11 @@ theorem toJson_set (db exp key m) : toJson (recSet db exp key m) = some (recSet 
 theorem toJson_aux (k v) : toJson (recAux k v) = some (recAux k v) := by
   simp [toJson, recAux]
 theorem toJson_zset (db exp key m) (s : UInt64) :
-    toJson (recZSet db exp key m s) = if nonFinite s then none else some (recZSet db exp key m s) := by
-  simp [toJson, recZSet, head]
+    toJson (recZSet db exp key m s) = some (recZSet db exp key m s) := rfl
+
+theorem toJsonPinned_zset (db exp key m) (s : UInt64) :
+    toJsonPinned (recZSet db exp key m s) = if nonFinite s then none else some (recZSet db exp key m s) := by
+  simp [toJsonPinned, recZSet, head]
 
 theorem listLoop_mem {db exp key} {r : Record} : ∀ {i : Nat} {xs : List Bytes}, r ∈ listLoop db exp key i xs →
     ∃ j v, r = recList db exp key j v := by
@@ -142,7 +145,7 @@ theorem listLoop_parse (db exp : Nat) (key : Bytes) (i : Nat) (xs : List Bytes) 
   | nil => rfl
   | cons v rest ih => simp [listLoop, List.zipIdx_cons, parse_list, ih]
 
-theorem fields_recover (it : Item) (hf : it.hasNonFinite = false) :
+theorem fields_recover (it : Item) :
     ∃ rs, blockOf (entryOf it) = some rs ∧ rs.map parseRecord = (specRecords it).map some := by
   cases it with
   | lua s =>
@@ -171,8 +174,7 @@ theorem fields_recover (it : Item) (hf : it.hasNonFinite = false) :
       | zset ms =>
         simp [objRecords] at hr
         obtain ⟨m, s, hm, rfl⟩ := hr
-        simp [Item.hasNonFinite, Value.hasNonFinite] at hf
-        rw [toJson_zset, hf m s hm]; rfl
+        exact toJson_zset ..
     · cases v with
       | str v => simp [objRecords, specRecords, elemsOf, parse_string]
       | list xs => simp [objRecords, specRecords, elemsOf, listLoop_parse]
@@ -180,20 +182,10 @@ theorem fields_recover (it : Item) (hf : it.hasNonFinite = false) :
       | set ms => simp [objRecords, specRecords, elemsOf, parse_set, Function.comp_def]
       | zset ms => simp [objRecords, specRecords, elemsOf, parse_zset, Function.comp_def]
 
-theorem nonfinite_aborts (it : Item) (hf : it.hasNonFinite = true) : blockOf (entryOf it) = none := by
-  cases it with
-  | lua s => simp [Item.hasNonFinite] at hf
-  | key k =>
-    obtain ⟨db, exp, key, v⟩ := k
-    cases v with
-    | zset ms =>
-      simp [Item.hasNonFinite, Value.hasNonFinite] at hf
-      obtain ⟨m, s, hm, hs⟩ := hf
-      simp only [entryOf, blockOf]
-      apply marshalAll_none (r := recZSet db exp key m s)
-      · simp only [objRecords, List.mem_map]; exact ⟨(m, s), hm, rfl⟩
-      · rw [toJson_zset, hs]; rfl
-    | _ => simp [Item.hasNonFinite, Value.hasNonFinite] at hf
+/-- the pinned marshaller refuses every sorted-set line with a non-finite score (D19, repaired) -/
+theorem nonfinite_refused_pinned (db exp : Nat) (key m : Bytes) (s : UInt64) (hs : nonFinite s = true) :
+    toJsonPinned (recZSet db exp key m s) = none := by
+  rw [toJsonPinned_zset, hs]; rfl
 
 end RSVerif.DecodeMode
 
